@@ -191,7 +191,7 @@ def check_c05(ctx):
             if len(rep.samples) < 2 and '~' in o['name'] and '/' in o['name']:
                 rep.samples.append({'member_name': o['name'], 'ref': o['refs'], 'mode': o['mode'], 'got': o['got']})
     # (b) graph layer: every node of every enumerated graph, nested pointers, other documents, dangling
-    layouts = fe.ALL_LAYOUTS if ctx.tier == 'thorough' else [fe.ALL_LAYOUTS[(ctx.seed + i) % 8] for i in (0, 3, 5)]
+    layouts = fe.ALL_LAYOUTS if ctx.tier == 'thorough' else [fe.ALL_LAYOUTS[(ctx.seed + i) % len(fe.ALL_LAYOUTS)] for i in (0, 3, 5)] + ["remoteq"]
     gensets = [fe.G_N3_ALL_WF] + ([fe.G_N4_S_WF, fe.G_N3_D3_WF] if ctx.tier == 'thorough' else [])
     for gi, gs in enumerate(gensets):
         lay = layouts if gs[1] == 2 else [a + '+subdir' for a in layouts]
